@@ -8,7 +8,7 @@ import re
 from typing import Dict, List, Optional
 
 from .absdom import Aff, Constraints, Piece, show_pieces
-from .absint import (ABoolTerm, ACollection, AExc, AFormat, AList, AMap, AMapGen, AObj, AReMatch, ARec, ASeq, AStruct,
+from .absint import (ABoolTerm, ACollection, AEnzymeV, AExc, AFormat, AList, AMap, AMapGen, AObj, AReMatch, ARec, ASeq, AStruct,
                      BoundMethod, Frame, Interp, LibRef, Outcome, RaiseSig, Term, AFeatList)
 from .kernels import N, ZERO, circ_record, emit, pieces_of, region_name, run_paths
 from .loader import AnalysisError, ClassInfo, FuncInfo, Program
@@ -573,7 +573,7 @@ def _mgr_world(ctx):
 
 
 def _entity(cls: ClassInfo, name: str) -> AObj:
-    o = AObj(cls, {}, name=name)
+    o = AObj(cls, {"cutter": AEnzymeV(True)}, name=name)
     rec = ARec(True, [Piece("W:" + name, ZERO, Aff.sym("n:" + name))], Term(name))
     rec.attrs["id"] = Term("id", Term(name))
     o.attrs["record"] = rec
@@ -799,7 +799,17 @@ def _find_walk_loop(p, fi: FuncInfo):
     def search(f, depth):
         loop = _find_loop(f, (ast.While,))
         if loop is not None:
-            return loop, {f.qualname: assigned_in(loop.body)}
+            names = assigned_in(loop.body)
+            # the loop sits in a nested generator of f: what f's own for loop over that generator assigns is loop-carried too
+            for nd in ast.walk(f.node):
+                if isinstance(nd, ast.FunctionDef) and nd is not f.node and any(x is loop for x in ast.walk(nd)) and _is_generator(nd):
+                    for node in ast.walk(f.node):
+                        if isinstance(node, ast.For) and isinstance(node.iter, ast.Call) and isinstance(node.iter.func, ast.Name) and node.iter.func.id == nd.name:
+                            names |= assigned_in(node.body)
+                            for x in ast.walk(node.target):
+                                if isinstance(x, ast.Name):
+                                    names.add(x.id)
+            return loop, {f.qualname: names}
         for node in ast.walk(f.node):
             if isinstance(node, ast.For) and isinstance(node.iter, ast.Call):
                 g = callee_of(f, node.iter)
@@ -843,7 +853,11 @@ def k14_walk(ctx, pid: str):
         I = fr.I
         for f in (I.frames or [fr]):
             names = assigned_by.get(f.fi.qualname if f.fi is not None else "", set())
+            from .absint import ChainEnv
+
             for nm in sorted(names):
+                if isinstance(f.env, ChainEnv) and not dict.__contains__(f.env, nm):
+                    continue  # a variable of the enclosing function, havocked there
                 v = f.env.get(nm)
                 if isinstance(v, Term):
                     f.env[nm] = KAPPA
@@ -880,6 +894,10 @@ def k14_walk(ctx, pid: str):
         out.append(("K14.entry", name, ok0,
                     "the walk must start from the vector's downstream overhang with an empty linear accumulator: entry state %r"
                     % ({k: v for k, v in env0.items() if k != "self"},)))
+        rewrites = sorted({e[2] for e in o.path.effects if e[0] == "setattr" and isinstance(e[1], AObj) and e[1] is I.kernel_args[0]})
+        out.append(("K14.manager-state", name, not rewrites,
+                    "the walk rewrites the manager's own %s: what assemble() does next (annotation naming every supplied module, the citation "
+                    "rewrite over every element) reads it" % ", ".join("self." + a for a in rewrites)))
         cmps = [(strip_norm(e[1]), strip_norm(e[2])) for e in o.path.effects if e[0] == "compare"]
         stop = [c for c in cmps if {repr(c[0]), repr(c[1])} == {repr(KAPPA), repr(START_V)}]
         out.append(("K14.stop", name, len(stop) >= 1 and len(cmps) == len(stop),
